@@ -6,7 +6,7 @@ Node kinds mirror BranchFreshCore.tla `Kinds` (1-based).
 import json
 import sys
 
-from pytableaux.lang import Atomic, Constant, Predicate
+from pytableaux.lang import Atomic, Constant, Operator, Predicate
 from pytableaux.proof.common import Branch
 
 c = [Constant(i, 0) for i in range(4)]
@@ -19,6 +19,7 @@ KINDS = [
     {'sentence': H((c[0], c[1]))}, {'sentence': H((c[2], c[1]))}, {'sentence': H((c[2], c[0]))},
     {'sentence': A, 'world': 0}, {'sentence': A, 'world': 2}, {'sentence': F(c[1]), 'world': 1},
     {'world1': 0, 'world2': 1}, {'world1': 2, 'world2': 1},
+    {'sentence': F(c[0]) & F(c[2])}, {'sentence': Operator.Conditional(F(c[1]), ~F(c[0])), 'world': 2},
 ]
 
 
